@@ -3,7 +3,7 @@ From Coq Require Import QArith Qabs ZArith List Arith Bool.
 Import ListNotations.
 From PD Require Import Model.Grid Model.Render Model.RenderSym Model.Locate Model.LocateSym Model.Ball Model.Overlap
   Proofs.LocateCart Proofs.BallLift Proofs.C01 Model.Label Proofs.LabelClients Model.Totality
-  Proofs.Components Proofs.C01Cyl Proofs.C01Multi Proofs.BallCount.
+  Proofs.Components Proofs.C01Cyl Proofs.C01CylPer Proofs.C01Multi Proofs.BallCount.
 Local Open Scope Q_scope.
 
 (* ===== Cartesian grids of any dimension =====
@@ -118,6 +118,22 @@ Theorem C01_cylindrical_single : forall (g : cylgrid) c rad img_pad img,
     Qabs (z - c) <= cg_dz g / 2.
 Proof. exact c01_cyl_candidates. Qed.
 Print Assumptions C01_cylindrical_single.
+
+(* periodic cylindrical grids: the image is padded with one periodic copy on each side ([nr; 3 nz] cells), located on
+   the padded image and the copy inside the box is kept.  Droplet inside the z range (rendering never wraps in z:
+   F19), 2 rad + dz <= L so that the copies do not touch: exactly one droplet, inside [z_lo, z_hi) *)
+Theorem C01_cylindrical_periodic_single : forall (g : cylgrid) c rad img_pad img,
+  cyl_ok g -> cg_per g = true ->
+  cg_zlo g <= c - rad -> c + rad <= cg_zhi g -> 2 * rad + cg_dz g <= cg_len g ->
+  cyl_cells g c rad <> [] ->
+  wf_img (cyl_axes3 g) img_pad -> LabelSpecImg img_pad ->
+  (forall idx, LocateCart.in_range [cg_nr g; (3 * cg_nz g)%Z] idx ->
+     (lab_of img_pad idx <> 0%nat <-> cyl_inside g c rad (ridx idx) (zidx idx mod cg_nz g) = true)) ->
+  exists z v, cyl_candidates g img_pad img = [(z, v)] /\
+    v == Components.lsum (cyl_cells g c rad) (fun p => shell g (ridx p)) /\
+    Qabs (z - c) <= cg_dz g / 2 /\ cg_zlo g <= z /\ z < cg_zhi g.
+Proof. exact c01_cyl_periodic_single. Qed.
+Print Assumptions C01_cylindrical_periodic_single.
 
 (* ===== end to end: render (Model/Render.v), label (Model/Label.v, proved to meet the specification of
    scipy.ndimage.label), locate -- no oracle premise left ===== *)
